@@ -50,10 +50,10 @@ def _rfc_a2():
         txt = open(p).read()
     except OSError:
         return None
-    m = re.search(r"A\.2\.  Client Initial\n(.*?)A\.3\.  Server Initial", txt, re.S)
-    if not m:
+    a, b = txt.rfind("A.2.  Client Initial"), txt.rfind("A.3.  Server Initial")
+    if a < 0 or b < a:
         return None
-    sec = m.group(1)
+    sec = txt[a:b]
     pay = re.search(r"1162-byte payload:\s*\n(.*?)\n\s*\n\s*The unprotected header", sec, re.S)
     pkt = re.search(r"resulting protected packet is:\s*\n(.*)$", sec, re.S)
     if not pay or not pkt:
@@ -140,7 +140,7 @@ def gen(rng, n, tier):
         for cut in range(1, 1 + 8 + 2 + 24 + 16, 3):
             ops.append(f"splice {suite} c d {cut}")
         # below-minimum payloads are refused by the encoder (model of the size rule)
-        for plen in (0, 1, 15, 16, 19, 20, 21, 22, 23):
+        for plen in (0, 1, 15, 16, 19, 23, 24, 25, 26):
             ops.append(_short_case(rng, suite, "z", b"", 5, 0, 0, 0, plen))
         ops.append(_short_case(rng, suite, "z", dcid, 5, 9, 0, 0, 40))       # pn below largest acked: truncation error
         ops.append(_short_case(rng, suite, "z", dcid, 5, 0, 0, 0, 1500))     # does not fit
@@ -228,9 +228,7 @@ def oracle(ops, outs):
                 bad.append((i, f"pp:tamper-accepted:{suite}:{region}",
                             f"{op}: a datagram that differs from every sealed packet was accepted ({out}) by the real unprotect+decrypt"))
         elif t[0] == "reopen":
-            # accepted only when the receiver reconstructs the very packet number that was sealed; the oracle cannot
-            # reconstruct without the code's expansion, so it only demands: same base => opened
-            c = cases.get((suite, t[2]))
+            # opened only when the receiver reconstructs the very packet number that was sealed (checked below for far bases)
             if out not in ("ok opened", "ok rejected", "bad-op"):
                 bad.append((i, f"pp:tamper-accepted:{suite}:nonce", f"{op}: {out}"))
     # nonce binding: for every case, a far-away expansion base (+2^33) must be rejected
